@@ -121,6 +121,19 @@ Close ==
     /\ ran' = [x \in Cbs |-> IF cb[x] \in {"conn", "explicit", "intro"} THEN ran[x] + 1 ELSE ran[x]]
     /\ UNCHANGED <<idx, tried, cb, late>>
 
+(* the same, with user code that reacts to the loss by issuing further calls on the connection (a retry from the
+   errback of the outstanding call that fails first, or from a disconnect callback): the calls in R are issued and fail
+   within the handling of the loss - nothing is left to fire later *)
+CloseRetry(R) ==
+    /\ phase = "ready" /\ R # {} /\ \A k \in R : call[k] = "new"
+    /\ \E k \in Calls : call[k] = "out"
+    /\ phase' = "closed"
+    /\ Fire("fail")
+    /\ call' = [k \in Calls |-> IF call[k] = "out" \/ k \in R THEN "lost" ELSE call[k]]
+    /\ timers' = {}
+    /\ ran' = [x \in Cbs |-> IF cb[x] \in {"conn", "explicit", "intro"} THEN ran[x] + 1 ELSE ran[x]]
+    /\ UNCHANGED <<idx, tried, cb, late>>
+
 (* time passes after the end: nothing may fire *)
 Quiet ==
     /\ phase \in {"closed", "failed"}
@@ -132,6 +145,7 @@ Next ==
     \/ \E k \in Calls : ReplyCall(k) \/ ExpireCall(k) \/ CancelCall(k)
     \/ \E x \in Cbs, w \in {"conn", "explicit", "intro"} : Register(x, w)
     \/ \E x \in Cbs : DropProxy(x) \/ Unregister(x) \/ Reregister(x)
+    \/ \E R \in SUBSET Calls : CloseRetry(R)
 
 Spec == Init /\ [][Next]_vars
 
